@@ -207,7 +207,7 @@ func (x *Exec) renderScript(as []*Term, neg *Term, getVals []*Term) string {
 		ax.symbols(au, map[*Term]bool{})
 		rel := false
 		for s := range au {
-			if strings.HasPrefix(s, "u$") && used[s] {
+			if (strings.HasPrefix(s, "u$") || strings.HasPrefix(s, "spec$")) && used[s] {
 				rel = true
 			}
 		}
